@@ -46,7 +46,9 @@ CHECKS["C07"] = dict(level="exploration", ref="6/C07",
 CHECKS["C08"] = dict(level="exploration", ref="6/C08",
    text="1-3 decoders with 0-4 earlier utterances each (any grammar, audio, streaming or batch, ended with or without hypothesis, CMN set or carried), grammar switches, all "
         "interleaved call by call by the seeded scheduler; then a probe utterance decoded twice whose full record must equal that of a pristine sibling process given only the "
-        "configuration, the last accepted grammar, the CMN text and the audio (batch class: no CMN reset).",
+        "configuration, the last accepted grammar, the CMN text and the audio (batch class: no CMN reset). A quarter of the plans CREATE their decoders inside the run (frequency-warping "
+        "options, big-endian input) after a creation history of front ends made and freed with other settings, the sibling creating the same decoder in a pristine process; one probe "
+        "in four is preceded by a filler utterance sized from the decoder's own ring position so that the probe ends where the live feature ring wraps.",
    note=DEC_NOTE, technique=TECH + "; differential against a pristine forked sibling after seeded histories on several live decoders")
 
 CHECKS["C17"] = dict(level="fault_enumeration", ref="6/C17",
@@ -55,7 +57,8 @@ CHECKS["C17"] = dict(level="fault_enumeration", ref="6/C17",
         "decoder_create+reinit or the in-memory *_s3file sequence; whatever is returned is used and freed; then faults are cleared, the intact model is initialised and must decode a "
         "canary utterance exactly as an undisturbed decoder. Thorough tier enumerates the field x value and truncation lists completely (about 12k cases), then samples; quick samples.",
    note="Allocation failure is not injected; absurd allocation sizes are capped by the sanitizer allocator so that they surface as the library's own exit. Leaks on failed loads "
-        "are not asserted. Real mmap is replaced by the file store.",
+        "are not asserted. One plan in five (and four edge plans per file) goes through the real src/mmio.c over a memory-backed file, the refused load repeated 12 times under a "
+        "budget of 10 spare descriptors; the other plans replace mmap by the exact-size heap store (a page-padded mapping would hide a one-byte over-read).",
    technique=TECH + "; fault enumeration over stored artefacts behind link-time file seams")
 
 CHECKS["C04"] = dict(level="exploration", ref="6/C04",
@@ -82,7 +85,7 @@ CHECKS["C11"] = dict(level="exploration", ref="6/C11",
    technique=TECH + "; graph invariants and lattice x reference-NFA product on lattices taken at scheduled instants")
 CHECKS["C12"] = dict(level="exploration", ref="6/C12",
    text="N-best iterators consumed to plan-chosen lengths (abandoned or run dry) on lattices taken at plan-chosen instants: non-increasing scores, every entry the word sequence of a "
-        "start-to-end lattice path with a node walk along links; lattice_bestpath = independent longest-path DP; link and best-path posteriors <= 1 within the log-add rounding "
+        "start-to-end lattice path with a node walk along links that begins at the start node; lattice_posterior asked twice in a row repeats; lattice_bestpath = independent longest-path DP; link and best-path posteriors <= 1 within the log-add rounding "
         "bound; forward total = backward total. Borderline for the technique: the schedule decides where lattices are taken and how far iterators run; the numeric clauses are "
         "invariants of each lattice reached.",
    note=DEC_NOTE, technique=TECH + "; invariant monitors over N-best iterators and forward-backward on scheduled lattices")
@@ -100,12 +103,12 @@ CHECKS["C16"] = dict(level="exploration", ref="6/C16",
         "across the table growth) interleaved with lookups, grammar loads, alignment texts using the new words and short utterances; a reference map (spelling -> pronunciation, "
         "alternates per base) is stepped in lock-step and compared with lookups, ids, base links, alternate chains read off the public dict_t, dictionary size and 24 sampled old words "
         "after every addition, the context tables of every touched word against the model definition, and every known alternate of a grammar word in the loaded "
-        "grammar's vocabulary; a rejected addition must leave all of it unchanged; hypotheses report base spellings (C03 monitor).",
+        "grammar's vocabulary; a rejected addition (incl. one made with update inside a running utterance) must leave all of it unchanged; hypotheses report base spellings (C03 monitor).",
    note=DEC_NOTE, technique=TECH + "; lock-step reference map over dictionary mutation histories")
 
 CHECKS["C09"] = dict(level="exploration", ref="6/C09",
    text="Decoders created INSIDE the run and driven by seeded histories of public API calls from logical producer/observer/mutator tasks (grammars incl. refused ones, words, "
-        "start/feed/end in chunks, hypotheses, segment/N-best/alignment iterators finished, abandoned or freed early, lattices, JSON, CMN, retain/free, reinit), ~15% out-of-order or "
+        "start/feed/end in chunks, hypotheses, segment/N-best/alignment iterators finished, abandoned or freed early, lattices with best path / posterior / posterior pruning down to nothing / N-best again, JSON, CMN, retain/free, reinit), ~15% out-of-order or "
         "degenerate calls (28 kinds, incl. grammar / add_word inside an utterance and reinitialisations refused at the front-end, model or dictionary stage), decoder_free mid-utterance, and a seeded crash point after which every reference is released. Oracle: no abnormal termination (ASan), "
         "documented failure values, the canary utterance still decodes to the canary record on every surviving decoder (bounded liveness once misuse stops), and an allocation "
         "ledger (sanitizer malloc/free hooks armed only while a library call is on the stack) empty after the last release, leak site taken from ASan's allocation stack.",
@@ -114,7 +117,7 @@ CHECKS["C09"] = dict(level="exploration", ref="6/C09",
 
 CHECKS["C18"] = dict(level="exploration", ref="6/C18",
    text="The hostile audio channel (silence, full-scale square, impulses, DC, noise at several levels, alternating silence/noise, speech with dropouts/clipping/bursts, float input up "
-        "to 1e6 x full scale, long streams: 30 s quick / 4 min thorough) over 2-6 utterances (streamed or whole-utterance batch feeds; a variance-normalising template) with CMN carried and exported/imported, run against a library built with UBSan "
+        "to 1e6 x full scale, long streams: 30 s quick / 4 min thorough) over 2-6 utterances (streamed or whole-utterance batch feeds; a template whose own feature-parameter file really switches variance normalisation on) with CMN carried and exported/imported, run against a library built with UBSan "
         "signed-integer-overflow and float-cast-overflow armed: every cepstral value (decoder's front end and a second front end with another configuration: noise/DC removal, log-spectrum, transform, lifter) and dynamic-feature value finite, CMN text finite, a text-level fixpoint and stable under recomputation from the imported state, every senone score of "
         "every frame in range with best = 0 (compallsen), path scores <= 0 and above the floor, first and second (alignment) pass free of signed overflow.",
    note=DEC_NOTE + " Only the undefined behaviour the property names is armed (no shift/alignment checks: negative left shifts are pervasive and benign here).",
